@@ -10,7 +10,7 @@ Definition py3_pre311_magic (m : Z) : bool := tuple_geb (magic_version m) [3; 0]
 
 Definition plain_ok (c : cfg) : bool := forallb (code_ok c) used_codes && vge c [3; 0].
 Definition code_ok_b (c : cfg) : bool :=
-  code_ok c 99 && negb (vge c [3; 11]) && vge c [2; 3] && vge c [1; 3] && vge c [2; 0] && vge c [1; 5].
+  code_ok c 99 && negb (vge c [3; 11]) && vge c [2; 3] && vge c [1; 3] && vge c [2; 1] && vge c [1; 5].
 
 Lemma plain_ok_sound c : plain_ok c = true -> cfg_ok c.
 Proof. unfold plain_ok, cfg_ok. intros H. apply andb_true_iff in H. exact H. Qed.
@@ -56,9 +56,9 @@ Lemma some_code_magics : existsb (fun m => py3_pre311_magic m && (m =? 3413) && 
 Proof. split; vm_compute; reflexivity. Qed.
 
 (* ---- Python 2.0-2.7 magics: the version tests of the code-object layout dump_code2 writes for ---- *)
-Definition py2_magic (m : Z) : bool := tuple_geb (magic_version m) [2; 0] && negb (tuple_geb (magic_version m) [3; 0]).
+Definition py2_magic (m : Z) : bool := tuple_geb (magic_version m) [2; 1] && negb (tuple_geb (magic_version m) [3; 0]).
 Definition cfg2_ok_b (c : cfg) : bool :=
-  negb (vge c [3; 0]) && negb (vge c [3; 11]) && negb (vge c [3; 8]) && vge c [1; 3] && vge c [2; 0] && vge c [1; 5].
+  negb (vge c [3; 0]) && negb (vge c [3; 11]) && negb (vge c [3; 8]) && vge c [1; 3] && vge c [2; 1] && vge c [1; 5].
 Lemma cpy2_all : forallb (fun m => negb (py2_magic m) || cfg2_ok_b (cpy_cfg m)) all_magics = true.
 Proof. vm_compute. reflexivity. Qed.
 Lemma xdis2_all : forallb (fun m => negb (py2_magic m) || cfg2_ok_b (xdis_cfg m)) all_magics = true.
@@ -68,7 +68,7 @@ Lemma xdis2_codes : forallb (fun m => forallb (code_ok (xdis_cfg m)) used_codes2
 Proof. vm_compute. reflexivity. Qed.
 
 Lemma cfg2_facts c : cfg2_ok_b c = true ->
-  vge c [3; 0] = false /\ vge c [3; 11] = false /\ vge c [3; 8] = false /\ vge c [1; 3] = true /\ vge c [2; 0] = true /\ vge c [1; 5] = true.
+  vge c [3; 0] = false /\ vge c [3; 11] = false /\ vge c [3; 8] = false /\ vge c [1; 3] = true /\ vge c [2; 1] = true /\ vge c [1; 5] = true.
 Proof.
   unfold cfg2_ok_b. intros H. repeat (apply andb_true_iff in H; destruct H as [H ?]).
   repeat match goal with Hn : negb _ = true |- _ => apply negb_true_iff in Hn end. repeat split; assumption.
